@@ -144,8 +144,8 @@ struct Live {
   }
 };
 
-// inputs ------------------------------------------------------------------------------------------------
-struct Input { char k; int a; };  // s=store(val idx) t=tick(sec) q=isAvailable(dep) f=find(name idx) m=find(master idx)
+// inputs (p = prepare the request of a referenced message without storing an answer) ------------------------------------------------------------------------------------------------
+struct Input { char k; int a; };  // p=prepare(ref idx) s=store(val idx) t=tick(sec) q=isAvailable(dep) f=find(name idx) m=find(master idx)
 static vector<Input> alphabet(const World& w) {
   vector<Input> v;
   for (size_t i = 0; i < w.vals.size(); i++) v.push_back({'s', (int)i});
@@ -153,10 +153,12 @@ static vector<Input> alphabet(const World& w) {
   for (size_t i = 0; i < w.deps.size(); i++) v.push_back({'q', (int)i});
   for (size_t i = 0; i < w.finds.size(); i++) v.push_back({'f', (int)i});
   for (size_t i = 0; i < w.findms.size(); i++) v.push_back({'m', (int)i});
+  // prepare(r): the request of an active referenced message is built (what an unanswered poll / read does) - no answer is stored
+  for (size_t i = 0; i < w.refs.size(); i++) if (w.refs[i].type != 'P') v.push_back({'p', (int)i});
   return v;
 }
 static const char* kindName(char k) {
-  switch (k) { case 's': return "store"; case 't': return "tick"; case 'q': return "avail"; case 'f': return "find"; default: return "findm"; }
+  switch (k) { case 's': return "store"; case 't': return "tick"; case 'q': return "avail"; case 'f': return "find"; case 'p': return "prepare"; default: return "findm"; }
 }
 
 static int apply(Live& L, const Input& in) {
@@ -169,6 +171,11 @@ static int apply(Live& L, const Input& in) {
       return rc == RESULT_OK ? 0 : 1;
     }
     case 't': g_now += in.a; return 0;
+    case 'p': {   // as PollRequest::prepare / BusHandler::readFromBus do before sending; the answer never arrives
+      MasterSymbolString ms; std::istringstream none("");
+      result_t rc = L.refs[in.a]->prepareMaster(0, 0xff, SYN, UI_FIELD_SEPARATOR, &none, &ms);
+      return rc == RESULT_OK ? 0 : 1;
+    }
     case 'q': return L.deps[in.a]->isAvailable() ? 1 : 0;
     case 'f': {
       const FindDef& f = L.w->finds[in.a];
@@ -365,7 +372,7 @@ static int cmdReplay(int argc, char** argv) {
   int widx; in >> widx;
   vector<Input> ins; string k; int a;
   while (in >> k >> a) {
-    char c = k == "store" ? 's' : k == "tick" ? 't' : k == "avail" ? 'q' : k == "find" ? 'f' : 'm';
+    char c = k == "store" ? 's' : k == "tick" ? 't' : k == "avail" ? 'q' : k == "find" ? 'f' : k == "prepare" ? 'p' : 'm';
     ins.push_back({c, c == 't' ? a : a - 1});
   }
   int nextId = 2; vector<int> roots, wi{widx};
